@@ -213,6 +213,7 @@ func bedFilePool(n int) []bedRec {
 }
 
 func runC04(r *core.Run) {
+	racePass(r, "race-format-bed", "the bed codec: readers each on their own stream (whole and in 7-byte reads, every corpus file), Write on shared records into separate destinations, File on one shared path; every result is compared with what the same call returned when it ran alone")
 	firstCallClause(r, "bed.")
 	texts := enum.AllStrings("a\",# ", 2)
 	texts = append(texts, `"a"`, `a"b"`, "\x00", "\x80", "'", `\"`)
@@ -416,6 +417,30 @@ func runC04(r *core.Run) {
 		var data []byte
 		var want []obsItem
 		for _, rc := range []bedRec{first, second} {
+			d, fail := writeBedChecked(rc)
+			if fail != "" {
+				return nil, nil, true, fail
+			}
+			data = append(data, d...)
+			want = append(want, obsItem{Rec: renderBED(rc.expectBack())})
+		}
+		return data, want, true, ""
+	})
+	escapeSpellingsClause(r, "bed", []string{"chrom", "chrom3", "name", "name12"}, func(field, v string) ([]byte, []obsItem, bool, string) {
+		if hasDelim(v) || (strings.HasPrefix(field, "chrom") && v[0] == '#') {
+			return nil, nil, false, ""
+		}
+		n := map[string]int{"chrom": 4, "chrom3": 3, "name": 4, "name12": 12}[field]
+		first, mid, last := defaultBed(n), defaultBed(n), defaultBed(n)
+		first.Chrom, last.Chrom = "first", "last"
+		if strings.HasPrefix(field, "chrom") {
+			mid.Chrom = core.S(v)
+		} else {
+			mid.Name = core.S(v)
+		}
+		var data []byte
+		var want []obsItem
+		for _, rc := range []bedRec{first, mid, last} {
 			d, fail := writeBedChecked(rc)
 			if fail != "" {
 				return nil, nil, true, fail
